@@ -26,19 +26,21 @@ type C14RPC struct {
 }
 
 type C14Case struct {
+	// Stats: do-nothing stats handlers on server and client (kit.Topo.Stats)
+	Stats bool `json:"stats,omitempty"`
 	// ErrKind: the error value the failing transport returns (kit.FaultErrKinds)
 	ErrKind string     `json:"err_kind,omitempty"`
 	Rounds  [][]C14RPC `json:"rounds"` // each round: RPCs in flight together, then quiesce
 	Ser     bool       `json:"ser"`
 }
 
-var c14Outcomes = []string{"ok", "ok", "herr", "cancel", "cancel-unread", "cancel-send", "deadline", "reset", "openfail"}
+var c14Outcomes = []string{"ok", "ok", "herr", "cancel", "cancel-unread", "cancel-send", "deadline", "reset", "openfail", "pre-cancelled", "pre-expired", "nearly-expired"}
 
 // c14ParkMarker is the payload of the message whose transport write is parked when the "cancel-send" outcome cancels
 var c14ParkMarker = []byte{0xEE, 0x14, 0xEE}
 
 func genC14(t *rapid.T) C14Case {
-	c := C14Case{Ser: rapid.Bool().Draw(t, "ser")}
+	c := C14Case{Ser: rapid.Bool().Draw(t, "ser"), Stats: rapid.IntRange(0, 3).Draw(t, "stats") == 0}
 	c.ErrKind = rapid.SampledFrom(kit.FaultErrKinds).Draw(t, "err_kind")
 	nr := rapid.IntRange(1, 6).Draw(t, "rounds")
 	for r := 0; r < nr; r++ {
@@ -49,6 +51,9 @@ func genC14(t *rapid.T) C14Case {
 			x := C14RPC{Kind: rapid.SampledFrom(allKinds).Draw(t, "kind"), Outcome: rapid.SampledFrom(c14Outcomes).Draw(t, "outcome"), Msgs: rapid.IntRange(0, 3).Draw(t, "msgs")}
 			if x.Kind == kit.KindUnary && x.Outcome == "reset" {
 				x.Outcome = "herr"
+			}
+			if x.Kind == kit.KindUnary && x.Outcome == "nearly-expired" {
+				x.Outcome = "deadline" // (a unary handler whose caller has gone is released by the harness' virtual clock)
 			}
 			if x.Outcome == "cancel-unread" && x.Kind != kit.KindServer && x.Kind != kit.KindBidi {
 				x.Outcome = "cancel"
@@ -159,7 +164,7 @@ func execC14(t *testing.T, c C14Case) (v Verdict) {
 				return inner(s)
 			})
 		}
-		w := kit.NewWorld(kit.Topo{Kind: "direct", Serialize: c.Ser, Clients: 1}, svc, nil, nil)
+		w := kit.NewWorld(kit.Topo{Kind: "direct", Serialize: c.Ser, Clients: 1, Stats: c.Stats}, svc, nil, nil)
 		w.Links[0].Tap = nil
 		l := w.Links[0]
 		cc := w.CC[0]
@@ -215,8 +220,19 @@ func execC14(t *testing.T, c C14Case) (v Verdict) {
 						ctx, cancel = context.WithTimeout(context.Background(), 25*time.Millisecond)
 						defer cancel()
 					}
+					// calls started on a context that has already ended, or is about to
+					switch x.Outcome {
+					case "pre-cancelled":
+						cancel()
+					case "pre-expired":
+						ctx, cancel = context.WithDeadline(context.Background(), time.Now().Add(-time.Second))
+						defer cancel()
+					case "nearly-expired":
+						ctx, cancel = context.WithTimeout(context.Background(), 300*time.Microsecond)
+						defer cancel()
+					}
 					if x.Kind == kit.KindUnary {
-						name := map[string]string{"ok": "u-ok", "herr": "u-herr", "cancel": "u-wait", "deadline": "u-wait", "openfail": "u-ok"}[x.Outcome]
+						name := map[string]string{"ok": "u-ok", "herr": "u-herr", "cancel": "u-wait", "deadline": "u-wait", "openfail": "u-ok", "pre-cancelled": "u-ok", "pre-expired": "u-ok", "nearly-expired": "u-wait"}[x.Outcome]
 						if x.Outcome == "openfail" {
 							ctx = metadataOutgoing(ctx, "failopen", "1") // the transport write of this request fails
 						}
@@ -226,7 +242,7 @@ func execC14(t *testing.T, c C14Case) (v Verdict) {
 						_, _ = kit.Invoke(ctx, cc, name, []byte("x"))
 						return
 					}
-					name := map[string]string{"ok": "s-ok", "herr": "s-herr", "cancel": "s-wait", "cancel-unread": "s-sendwait", "cancel-send": "s-wait", "deadline": "s-wait", "reset": "s-early", "openfail": "s-ok"}[x.Outcome]
+					name := map[string]string{"ok": "s-ok", "herr": "s-herr", "cancel": "s-wait", "cancel-unread": "s-sendwait", "cancel-send": "s-wait", "deadline": "s-wait", "reset": "s-early", "openfail": "s-ok", "pre-cancelled": "s-ok", "pre-expired": "s-ok", "nearly-expired": "s-wait"}[x.Outcome]
 					if x.Outcome == "openfail" {
 						ctx = metadataOutgoing(ctx, "failopen", "1")
 					}
@@ -255,7 +271,7 @@ func execC14(t *testing.T, c C14Case) (v Verdict) {
 						// only moves once everything is parked)
 						go func() { time.Sleep(time.Millisecond); cancel() }()
 						_ = kit.SendBytes(cs, c14ParkMarker)
-					case "deadline":
+					case "deadline", "nearly-expired":
 					default:
 						_ = cs.CloseSend()
 					}
